@@ -529,3 +529,15 @@ def r9(cx):
                         cx.passed(p, "cache-field-read", [b.sp(bi)])
                     else:
                         cx.violation(p, "cache-field-read:%s" % p.rsplit("::", 1)[1], "%s: %s reads the catalog cache directly, outside load_catalog_cached" % (b.sp(bi), p.rsplit("::", 1)[1]), [b.sp(bi)])
+
+
+@rule("C02", "R10", "the token a loader returns is the ETag of the GET whose body it parsed (C13.R5 (a), evaluated for every load_*_with_etag of the object-store backend): an ETag fetched "
+      "by a second request can belong to a newer version than the body, and the conditional PUT then fences the wrong version")
+def r10(cx):
+    import importlib
+    m = importlib.import_module("rules.C13")
+    ib = len(cx.instances)
+    ob0, di0 = cx.obligations, cx.discharged
+    m.r5(cx)
+    cx.obligations = ob0 + len(cx.instances[ib:])
+    cx.discharged = di0 + len([i for i in cx.instances[ib:] if i["verdict"] == "holds"])
